@@ -142,6 +142,16 @@ class C11(Prop):
         want_rows = int(total) if rows is None else int(rows)
         np.random.seed((case['seed'] + 7) % (2 ** 31))
         out = []
+
+        def snapshot():
+            snap = {}
+            for nm in ('potentials', 'marginals'):
+                cv = getattr(model, nm, None)
+                if cv is not None:
+                    for cl in cv:
+                        snap[(nm, tuple(cl))] = np.array(cv[cl].values, dtype=float, copy=True)
+            return snap
+        before = snapshot()
         try:
             data = model.synthetic_data(rows=rows, method=method)
             df = data.df
@@ -149,6 +159,15 @@ class C11(Prop):
             return [('returns-dataset', False, dict(raised='%s: %s' % (type(e).__name__, e), rows=rows, method=method,
                                                     model_cliques=[list(c) for c in model.cliques]))]
         out.append(('returns-dataset', True, {}))
+        # the model is the reference every later call is measured against: generating data must not change what it stores
+        after = snapshot()
+        changed = [k for k in before if k not in after or before[k].shape != after[k].shape
+                   or not np.array_equal(before[k], after[k], equal_nan=True)]
+        out.append(('generation-leaves-the-model-unchanged', not changed,
+                    dict(changed=[[k[0], list(k[1])] for k in changed][:4],
+                         max_abs_change=max([float(np.nanmax(np.abs(np.where(np.isfinite(before[k]) & np.isfinite(after[k]), before[k] - after[k], 0.0))))
+                                             for k in changed if k in after and before[k].shape == after[k].shape] or [0.0]),
+                         note='a second synthetic_data call on this model would realise the altered tables, not the model')))
         out.append(('row-count-is-requested', int(df.shape[0]) == want_rows, dict(rows_arg=rows, model_total=total, expected=want_rows, got=int(df.shape[0]))))
         out.append(('columns-are-domain-attributes', list(df.columns) == attrs and tuple(data.domain.attrs) == tuple(attrs),
                     dict(columns=[str(c) for c in df.columns], attrs=attrs)))
